@@ -1136,3 +1136,51 @@ func FeasiblePaths(target ssa.Instruction, max int) (paths []Path, pruned int, o
 	dfs(fn.Blocks[0])
 	return paths, pruned, ok
 }
+
+// FlagPhisConst generalises FlagPhis: boolean phis that carry the constant
+// `val` on every predecessor reachable from one of the edges in `on`.
+func FlagPhisConst(fn *ssa.Function, on []Edge, val bool) []*ssa.Phi {
+	var out []*ssa.Phi
+	for _, b := range fn.Blocks {
+		for _, in := range b.Instrs {
+			phi, ok := in.(*ssa.Phi)
+			if !ok {
+				break
+			}
+			if bt, ok := phi.Type().Underlying().(*types.Basic); !ok || bt.Kind() != types.Bool {
+				continue
+			}
+			avoid := map[Edge]bool{}
+			for _, p := range b.Preds {
+				for i, s := range p.Succs {
+					if s == b {
+						avoid[Edge{p, i}] = true
+					}
+				}
+			}
+			var starts []*ssa.BasicBlock
+			direct := map[*ssa.BasicBlock]bool{}
+			for _, e := range on {
+				if e.To() == b {
+					direct[e.From] = true
+				} else {
+					starts = append(starts, e.To())
+				}
+			}
+			reach, _ := ReachBlocks(starts, avoid)
+			n, good := 0, true
+			for i, p := range b.Preds {
+				if reach[p] || direct[p] {
+					n++
+					if v, ok := ConstBool(phi.Edges[i]); !ok || v != val {
+						good = false
+					}
+				}
+			}
+			if n > 0 && good {
+				out = append(out, phi)
+			}
+		}
+	}
+	return out
+}
